@@ -347,6 +347,27 @@ fn run_c36(ctx: &mut Ctx, rep: &mut Report) {
         rep.class(format!("library|addrs{}|slowpath{}", naddr.min(6), overlap.min(12)));
         rep.max("max_concurrent_slow_path_entries", overlap as u64);
     }
+    // (b2) counter stress: connections of one address open and close on many threads at once; the count returns to zero
+    for round in 0..ctx.tier.pick(3usize, 40) {
+        if !ctx.time_left() { break }
+        let metrics = Arc::new(RtrServerMetrics::new(true));
+        let ip: IpAddr = Ipv4Addr::new(10, 9, 9, 9).into();
+        let barrier = Arc::new(std::sync::Barrier::new(8));
+        let mut handles = Vec::new();
+        for _ in 0..8 {
+            let metrics = metrics.clone(); let barrier = barrier.clone();
+            handles.push(std::thread::spawn(move || {
+                let c = metrics.get_client(ip);
+                barrier.wait();
+                for _ in 0..4000 { c.update(|m| m.inc_current_connections()); c.update(|m| m.dec_current_connections()); }
+            }));
+        }
+        for h in handles { let _ = h.join(); }
+        rep.eval();
+        let mut expect = std::collections::BTreeMap::new(); expect.insert(ip, 0usize);
+        check_clients(&metrics, &expect, "library/counter-stress", rep, json!({"leg": "counter-stress", "round": round}));
+        rep.class("library|counter-stress");
+    }
     // (a) listener leg
     let rt = tokio::runtime::Builder::new_multi_thread().worker_threads(4).enable_all().build().unwrap();
     for round in 0..rounds {
